@@ -1779,11 +1779,6 @@ func (c *Client) doSetup(
 		th.InterleavedIDs = &[2]int{ch, ch + 1}
 	}
 
-	mediaURL, err := medi.URL(baseURL)
-	if err != nil {
-		return nil, err
-	}
-
 	header := base.Header{
 		"Transport": th.Marshal(),
 	}
@@ -1794,6 +1789,11 @@ func (c *Client) doSetup(
 		}
 
 		header["Require"] = base.HeaderValue{"www.onvif.org/ver20/backchannel"}
+	}
+
+	mediaURL, err := medi.URL(baseURL)
+	if err != nil {
+		return nil, err
 	}
 
 	if hasH264PacketizationMode0(medi.Formats) &&
